@@ -303,6 +303,18 @@ add("C03", "X-value-carrying-enable", "fixed",
      "hist": [["d1", 7], ["e1", 1], ["e2", 20], ["d1", 9], ["e2", 0], ["d1", 4]], **OPT}, commit="f6718d2")
 
 
+add("C01", "X-not-of-decided-chain", "fixed",
+    "!(v3 < 0 || 0 >= (\"iron-plate\", 0)) gave 1: the chain is decided at compile time and '!' compared two constants in a decider",
+    case01([Decl("Signal", "v3", Num(0)), Decl("Signal", "v6", Un("!", Paren(Bin("||", Bin("<", Ref("v3"), Num(0)), Bin(">=", Num(0), SigLit("iron-plate", Num(0)))))))],
+           [{"v3": 0}, {"v3": -4}]), commit="2ebeee3")
+add("C02", "X-selected-member-colour", "fixed",
+    "Bundle b3 = (in3 == 0) : b1; Signal s1 = b1[\"signal-C\"] > 0; read red while the gate had moved b1 to green",
+    case01([S("in1", "signal-check", 0), Decl("Signal", "in3", Num(0)),
+            Decl("Bundle", "b1", BLit((SigLit("stone", Num(0)), SigLit("signal-C", Num(1)), Ref("in1")))),
+            Decl("Bundle", "b3", Cond(Bin("==", Ref("in3"), Num(0)), Ref("b1"))),
+            Decl("Signal", "s1", Bin(">", BSel(Ref("b1"), "signal-C"), Num(0)))], [{"in1": 0, "in3": 0}, {"in1": 3, "in3": 1}]), commit="bac574a")
+
+
 def main():
     import importlib
 
